@@ -5,6 +5,7 @@ import (
 	"hash/fnv"
 	"os"
 	"sort"
+	"strconv"
 	"strings"
 	"sync"
 	"time"
@@ -141,6 +142,9 @@ func explore(ld *loaded, u *Unit, tc *TierCfg, seed int64, smtlog string) *UnitR
 	workers := tc.Workers
 	if workers <= 0 {
 		workers = 12
+	}
+	if w, err := strconv.Atoi(os.Getenv("GSE_WORKERS")); err == nil && w > 0 {
+		workers = w // seed triage next to another run
 	}
 	maxPaths := tc.MaxPaths
 	if maxPaths <= 0 {
